@@ -102,6 +102,22 @@ PROPERTY RefusalEnds
 CHECK_DEADLOCK FALSE
 """
 
+# negative control (spec/WalkParStartBad.tla): falling back to a serial walk while the workers already created live on
+BAD_CFG = """SPECIFICATION BSpec
+CONSTANTS
+ Depth = %(depth)d
+ NW = %(nw)d
+ Cap = %(cap)d
+ AcceptSets <- ConfAccept
+ Apexes <- ConfApex
+ FaultSets <- ConfFaults
+ StartFaults <- ConfStart
+ Checked = TRUE
+INVARIANT OnlyOps
+INVARIANT AtMostOnce
+CHECK_DEADLOCK FALSE
+"""
+
 SIMCFG = """SPECIFICATION SimSpec
 CONSTANTS
  Depth = %(depth)d
@@ -964,10 +980,16 @@ def run(ctx):
         pending.append(pool.submit(lambda: ctx.tlc("SConf", extra={"SConf.tla": conf_module("SConf", "WalkParStart", [fam[1], fam[3]], [ROOT], start=[0, 1, 2])},
                                                    cfg_text=START_CFG % dict(depth=2, nw=2, cap=4), timeout=900, workers=4)))
     else:
-        ctx.tlc("SConf", extra={"SConf.tla": conf_module("SConf", "WalkParStart", fam[:6], apexes, "one", start=[0, 1, 2])},
+        ctx.tlc("SConf", extra={"SConf.tla": conf_module("SConf", "WalkParStart", [fam[1], fam[3], fam[4]], [ROOT, (1, 1, 0)], start=[0, 1, 2])},
                 cfg_text=START_CFG % dict(depth=2, nw=2, cap=4), timeout=3000)
-        ctx.tlc("SConf", extra={"SConf.tla": conf_module("SConf", "WalkParStart", [fam[1], fam[3], fam[4]], [ROOT, (1, 1, 0)], start=[0, 1, 2, 3])},
+        ctx.tlc("SConf", extra={"SConf.tla": conf_module("SConf", "WalkParStart", [fam[1], fam[3]], [ROOT], start=[0, 1, 2, 3])},
                 cfg_text=START_CFG % dict(depth=2, nw=3, cap=6), timeout=3000)
+        # negative control: the reaction to a refusal that is NOT admissible must be rejected by the same invariant
+        rneg = ctx.tlc("BConf", extra={"BConf.tla": conf_module("BConf", "WalkParStartBad", [fam[1], fam[3]], [ROOT], start=[2])},
+                       cfg_text=BAD_CFG % dict(depth=2, nw=2, cap=4), expect_violation=True, timeout=900, workers=2, count=False)
+        if rneg.violated != "AtMostOnce":
+            ctx.machinery("WalkParStartBad (serial fallback beside live workers) is not rejected by AtMostOnce (TLC: %s): the start-refusal model is vacuous" % rneg.violated)
+        ctx.add_note("inadmissible_fallback_rejected_by_tlc")
         allpat = [with_kids(list(s), 2) for r in range(5) for s in __import__("itertools").combinations(l1, r)] + fam[4:]
         ctx.tlc("Conf", extra={"Conf.tla": conf_module("Conf", "WalkPar", allpat, apexes, "one")}, cfg_text=CFG % dict(depth=2, nw=2, cap=4), timeout=3000)
         ctx.tlc("Conf", extra={"Conf.tla": conf_module("Conf", "WalkPar", fam[:5], [ROOT, (1, 1, 0)])}, cfg_text=CFG % dict(depth=2, nw=3, cap=6), timeout=3000)
@@ -975,7 +997,8 @@ def run(ctx):
         ctx.tlc("Conf", extra={"Conf.tla": conf_module("Conf", "WalkPar", d3, [ROOT, (1, 0, 0)])}, cfg_text=CFG % dict(depth=3, nw=2, cap=4), timeout=3000)
     # (2) replay
     ok, drift = replay_walk(ctx, 2, 2, fam[:6], apexes[:2], 60 if q else 600)
-    _, drift_s = replay_walk(ctx, 2, 2, [fam[1], fam[3], fam[4]], apexes[:2], 24 if q else 300, start=[0, 1, 2])
+    # (2') ... worker creation included: no start refused (workers act while later ones are being created) / the 2nd (thorough: any) refused
+    _, drift_s = replay_walk(ctx, 2, 2, [fam[1], fam[3], fam[4]], apexes[:2], 20 if q else 300, start=[0, 2] if q else [0, 1, 2])
     drift3 = False
     if not q:
         replay_walk(ctx, 2, 3, [fam[1], fam[3]], apexes[:2], 150, start=[1, 2, 3])
